@@ -261,6 +261,11 @@ def do_slice(it, c, sl, node):
         ln = z3.If(hi > lo, hi - lo, 0)
         so = c.sort
         return list_from_lambda(it, so.elem, z3.simplify(ln), lambda i: so.at(c, lo + i))
+    if isinstance(c, V) and c.sort is TStr and sl.upper is None and sl.lower is not None:
+        lo = it.coerce(it.ev(sl.lower), TInt)
+        if S.TStrC.mode == "z3":
+            return V(TStr, (z3.SubString(c.t, lo.t, z3.Length(c.t) - lo.t),))
+        return V(TStr, (it.eng.ufunc("str_drop", S.StrAbs, z3.IntSort(), S.StrAbs)(c.t, lo.t),))
     raise OutOfSubset("slice on non-list")
 
 
@@ -1385,7 +1390,18 @@ def value_method(it, base, attr, node):
                 return V(TStr, (it.eng.ufunc("str_" + attr, zs, zs)(base.t),))
             return bb(f)
         if attr == "format":
-            raise OutOfSubset("str.format")
+            def f(*a):
+                lit = _const_key(base)
+                if lit is None or lit.count("{}") != len(a) or "{" in lit.replace("{}", ""):
+                    raise OutOfSubset("str.format form")
+                parts = lit.split("{}")
+                acc = mk_str(parts[0])
+                for x, rest in zip(a, parts[1:]):
+                    acc = s_concat(it, acc, to_str(it, x))
+                    if rest:
+                        acc = s_concat(it, acc, mk_str(rest))
+                return acc
+            return bb(f)
     if isinstance(so, S.TTuple):
         pass
     raise OutOfSubset(f"method {attr} on {so}")
